@@ -312,8 +312,15 @@ example :
     (∀ cmd ∈ cmds, OpOk true cmd.op) ∧ NamesOk cmds ∧
     (crun cmds (CState.init initStore cmds) tr).map (·.complete) = some true ∧
     (crun cmds (CState.init initStore cmds) tr).map (fun st => get st.store (.chunk 1 11)) = some (some (.chunk 1 11)) ∧
+    (crun cmds (CState.init initStore cmds) tr).map (fun (st : CState) =>
+        [Name.chunk 1 10, .chunk 1 11, .chunk 1 12, .snap 1 100, .snap 1 101, .config].map (Repo.get st.store)) =
+      some ([Name.chunk 1 10, .chunk 1 11, .chunk 1 12, .snap 1 100, .snap 1 101, .config].map
+        (Repo.get (run true initStore (cmds.reverse.map SnapCmd.op)))) ∧
+    -- the restore issued right after `commit 0`, while command 1 is still uploading, returns snapshot 100's files
+    (crun cmds (CState.init initStore cmds) (tr.take 9)).map (fun st =>
+        (restore true ⟨1, 1⟩ (fun x => x == 100) (fun _ => true) st.store).toOption) = some (some [⟨1, 1, [10, 11]⟩]) ∧
     (crun cmds (CState.init initStore cmds) (tr.take 8 ++ [.commit 1])).isNone = true := by
-  refine ⟨?_, ?_, by decide +kernel, by decide +kernel, by decide +kernel⟩
+  refine ⟨?_, ?_, by decide +kernel, by decide +kernel, by decide +kernel, by decide +kernel, by decide +kernel⟩
   · intro cmd hc
     simp only [mem_cons, not_mem_nil, or_false] at hc
     rcases hc with rfl | rfl <;> simp [SnapCmd.op, OpOk, UserOk]
